@@ -39,6 +39,9 @@ def Let(lhs, rhs):
     lhs = lhs if isinstance(lhs, list) else [lhs]
     rhs = rhs if isinstance(rhs, list) else [rhs]
     return {"k": "let", "lhs": [Id(x) if isinstance(x, str) else x for x in lhs], "rhs": rhs}
+def LetMI(a, b, rhs): return {"k": "letmi", "lhs": [Id(a), Id(b)], "rhs": rhs}      # a, b = m[k]
+
+
 def Var(names, rhs):
     names = names if isinstance(names, list) else [names]
     rhs = rhs if isinstance(rhs, list) else [rhs]
@@ -178,6 +181,17 @@ def fam_forin():
                 "prog": [ForIn(["k", "v"], M((S("a"), I(1)), (S("b"), I(2)), (S("c"), I(3))), [P(Id("k")), P(Id("v"))]), P(9), Ret(I(0))]})
     out.append({"id": "c08-forin-map1", "unordered": True,
                 "prog": [ForIn(["k"], M((S("a"), I(1)), (S("b"), I(2))), [P(Id("k"))]), P(9), Ret(I(0))]})
+    # every entry once -- whatever its value is: nil, false, zero, empty containers
+    for nm, vals in (("nilvals", [NIL, I(1), NIL]), ("falsy", [B(False), I(0), S("")]), ("empties", [L(), M(), NIL]), ("allnil", [NIL, NIL])):
+        m = M(*[(S("k%d" % j), v) for j, v in enumerate(vals)])
+        out.append({"id": "c08-forin-map2-" + nm, "unordered": True, "prog": [Let("n", I(0)), ForIn(["k", "v"], m, [P(Id("k")), Let("n", Bin("+", Id("n"), I(1)))]), P(9), Ret(Id("n"))]})
+        out.append({"id": "c08-forin-map1-" + nm, "unordered": True, "prog": [Let("n", I(0)), ForIn(["k"], m, [P(Id("k")), Let("n", Bin("+", Id("n"), I(1)))]), P(9), Ret(Id("n"))]})
+        out.append({"id": "c08-forin-list-" + nm, "prog": [Let("n", I(0)), ForIn(["v"], L(*vals), [P(Id("v")), Let("n", Bin("+", Id("n"), I(1)))]), P(9), Ret(Id("n"))]})
+    # loop conditions of every truthiness class, negative numbers included (anything but zero is true)
+    for nm, c, truthy in (("neg", I(-1), True), ("negbig", I(-4096), True), ("negflt", F("-0.5", "-0.5"), True), ("zero", I(0), False), ("pos", I(2), True)):
+        out.append({"id": "c08-loopcond-while-" + nm, "prog": [Let("n", I(0)), While(c, [P(1), Let("n", Bin("+", Id("n"), I(1))), If(Bin(">=", Id("n"), I(2)), [BRK])]), P(9), Ret(Id("n"))]})
+        out.append({"id": "c08-loopcond-cfor-" + nm, "prog": [CFor(Let("j", I(0)), c, Inc("j"), [P(2), If(Bin(">=", Id("j"), I(1)), [BRK])]), P(9), Ret(I(0))]})
+        out.append({"id": "c08-loopcond-if-" + nm, "prog": [If(c, [P(3)], els=[P(4)]), P(Tern(c, I(5), I(6))), Ret(I(0))]})
     out.append({"id": "c08-forin-bad", "prog": [P(1), ForIn("v", I(3), [P(2)]), P(3), Ret(I(0))]})
     # return value forms
     for nm, r in (("none", Ret()), ("one", Ret(I(4))), ("two", Ret(I(4), S("x"))), ("list", Ret(L(I(1), I(2)))), ("nil", Ret(NIL))):
@@ -458,6 +472,12 @@ def fam_c07():
     add("addr-member-call", pre + [Try([E(Call("pa", Addr(Member(Call("mk"), "k")))), P(Id("ma"))], "e", [P(60)]), Ret(I(0))])
     add("addr-item-bad", pre + [Try([E(Call("pa", Addr(Idx(Id("la"), BAD))))], "e", [P(60)]), Ret(I(0))])
     add("addr-two", pre + [Try([P(L(Call("pa", Addr(Idx(Id("la"), PV(1, I(1))))), Call("pa", Addr(Idx(Id("la"), PV(2, I(2)))))))], "e", [P(60)]), Ret(I(0))])
+    # v, ok = m[k]: the map and key operands are evaluated once, whether the key is there, missing, or stored with nil
+    mpre = [Let("mm", M((S("k"), I(1)), (S("n"), NIL))), FnStmt("gm", [], [P(30), Ret(Id("mm"))])]
+    for key in ("k", "n", "zz"):
+        add("mapitem-ok-%s" % key, mpre + [Try([LetMI("v", "ok", Idx(PV(1, Id("mm")), PV(2, S(key)))), P(Id("v")), P(Id("ok"))], "e", [P(60)]), Ret(I(0))])
+        add("mapitem-ok-call-%s" % key, mpre + [Try([LetMI("v", "ok", Idx(Call("gm"), PV(2, S(key)))), P(Id("v")), P(Id("ok"))], "e", [P(60)]), Ret(I(0))])
+    add("mapitem-ok-badkey", mpre + [Try([LetMI("v", "ok", Idx(PV(1, Id("mm")), BAD)), P(Id("v"))], "e", [P(60)]), Ret(I(0))])
     # literals, operators, index, return list, multi-assignment
     for bad in (None, 0, 1, 2):
         o = ops(3, bad)
